@@ -198,7 +198,8 @@ def run_batch(args):
 def check(tier, seed, t0):
     vlib.build_cli()
     thorough = tier == "thorough"
-    runs = [(4, ALPHABET), (6, SMALL)] if thorough else [(3, ALPHABET), (4, SMALL)]
+    tiny = ["bindx", "refx", "outx", "quit", "lopen", "litem", "lclose", "help", "nestl", "bindc", "refu", "perr"]
+    runs = [(4, ALPHABET), (5, SMALL)] if thorough else [(3, ALPHABET), (4, tiny)]
     cases = []
     states = 0
     for depth, alpha in runs:
